@@ -152,6 +152,36 @@ fn judge(r: &RunResult, reference: &BTreeMap<String, Vec<u8>>, kind: &str, crash
     None
 }
 
+/// Second run of a two-run history: undisturbed, shorter output (`-e 2`), same dump folder as the failed / killed first run.
+/// Exit 0 must mean complete output identical to the undisturbed run on a fresh folder, and no tmp file.
+fn recovery(wk: &Worker, cb: &str, reference: &BTreeMap<String, Vec<u8>>, acc: &mut Report) -> Option<(String, String)> {
+    let r = wk.run_keep(&RunSpec::new("bitcoin", cb).range(None, Some(2)));
+    acc.transitions += 1;
+    acc.count("recovery-runs-after-failed-or-killed-run", 1);
+    if r.code != Some(0) {
+        return Some(("undisturbed-run-fails-after-failed-run".into(), format!("exit {:?}: {}", r.code, r.stderr.lines().next().unwrap_or(""))));
+    }
+    for (n, c) in reference {
+        match r.files.get(n) {
+            None => return Some(("exit-0-but-output-file-missing".into(), n.clone())),
+            Some(g) => {
+                if &canon(n, g) != c {
+                    return Some(("exit-0-but-output-differs-from-undisturbed-run".into(), format!("{} has {} bytes, the undisturbed run on a fresh folder writes {}", n, g.len(), c.len())));
+                }
+            }
+        }
+    }
+    let tmp: Vec<&str> = match cb {
+        "csvdump" => vec!["blocks.csv.tmp", "transactions.csv.tmp", "tx_in.csv.tmp", "tx_out.csv.tmp"],
+        "unspentcsvdump" => vec!["unspent.csv.tmp"],
+        _ => vec!["balances.csv.tmp"],
+    };
+    if let Some(t) = tmp.iter().find(|t| r.files.contains_key(**t)) {
+        return Some(("exit-0-but-tmp-file-remains".into(), t.to_string()));
+    }
+    None
+}
+
 #[derive(Clone, Debug)]
 enum Case {
     Input { cb: &'static str, height: u64, fault: String },
@@ -192,6 +222,24 @@ pub fn run() -> Report {
                 reference.insert((cb, is_large), r.files.iter().map(|(k, v)| (k.clone(), canon(k, v))).collect());
                 calls.insert((cb, is_large), log);
             }
+        }
+    }
+    // reference of the recovery run (`-e 2`, shorter output) on a fresh folder
+    let mut recovery_ref: BTreeMap<&str, BTreeMap<String, Vec<u8>>> = BTreeMap::new();
+    {
+        let wk = Worker::new(&root, 801);
+        if let Err(m) = wk.materialise(&small) {
+            rep.machinery(m);
+            return rep;
+        }
+        for cb in CBS {
+            let r = wk.run(&RunSpec::new("bitcoin", cb).range(None, Some(2)));
+            rep.transitions += 1;
+            if !r.ok() {
+                rep.machinery(format!("recovery reference run of {} failed", cb));
+                return rep;
+            }
+            recovery_ref.insert(cb, r.files.iter().map(|(k, v)| (k.clone(), canon(k, v))).collect());
         }
     }
     let mut cases: Vec<Case> = Vec::new();
@@ -255,7 +303,7 @@ pub fn run() -> Report {
             l += step;
         }
     }
-    rep.rule = "three enumerations on the real binary for csvdump / unspentcsvdump / balances: (1) input faults: every height x {blk file removed, emptied, truncated at (every 7th / every) byte, index offset past EOF, offset into the last 3 bytes}; (2) output faults with deviation bound 1 (complete): at EVERY intercepted open/write/rename/close call on the dump folder every answer of {ENOSPC, EIO, 1-byte short write then ENOSPC, n-1 short write, EINTR}, bound 2 (benign deviation followed by an error or a crash) on the small world, plus a byte-granular RLIMIT_FSIZE sweep; (3) crash points: process killed (_exit) immediately before EVERY intercepted call and after the last one; small world (all writes at completion) and large world (4 MB buffers overflow mid-run); non-trivial = distinct fault / crash case".into();
+    rep.rule = "three enumerations on the real binary for csvdump / unspentcsvdump / balances: (1) input faults: every height x {blk file removed, emptied, truncated at (every 7th / every) byte, index offset past EOF, offset into the last 3 bytes}; (2) output faults with deviation bound 1 (complete): at EVERY intercepted open/write/rename/close call on the dump folder every answer of {ENOSPC, EIO, 1-byte short write then ENOSPC, n-1 short write, EINTR}, bound 2 (benign deviation followed by an error or a crash) on the small world, plus a byte-granular RLIMIT_FSIZE sweep; (3) crash points: process killed (_exit) immediately before EVERY intercepted call and after the last one; every failed or killed run on the small world is followed by an undisturbed shorter run (-e 2) in the same folder, which must be complete and identical to a fresh-folder run; small world (all writes at completion) and large world (4 MB buffers overflow mid-run); non-trivial = distinct fault / crash case".into();
     rep.bound = json!({"cases": cases.len(), "intercepted_calls": calls.iter().map(|((cb, l), v)| (format!("{}{}", cb, if *l { "/large" } else { "/small" }), json!(v.len()))).collect::<serde_json::Map<_, _>>(), "deviation_bound": "1 complete, 2 on the small world (benign then error/crash)"});
     rep.not_covered = vec!["power-loss durability (fsync ordering) is not claimed by the property".into(), "SIGKILL at instants between two syscalls is equivalent to the crash point before the later syscall (the directory cannot change in between)".into()];
     let parts = par_fold(
@@ -341,6 +389,11 @@ pub fn run() -> Report {
                     if acc.samples.len() < 2 && *kind == "write-error" {
                         acc.sample(json!({"output_fault": format!("{} plan {}", cb, plan), "call": refseq.get(first_k).map(|c| format!("{} {} {}", c.op, c.path, c.len)), "exit": r.code, "files_after": r.files.keys().collect::<Vec<_>>()}));
                     }
+                    if !*lg && r.code != Some(0) {
+                        if let Some((sig, d)) = recovery(&wk, cb, &recovery_ref[*cb], acc) {
+                            acc.disagree(&format!("{}:after-{}", sig, kind), format!("{} small, first run with plan {} (exit {:?}), then an undisturbed `-e 2` run in the same folder: {}", cb, plan, r.code, d), json!({"kind": "e1-described", "callback": cb, "first_run_plan": plan, "second_run": "-e 2, no faults, same dump folder"}));
+                        }
+                    }
                     if let Some((sig, d)) = judge(&r, &reference[&(*cb, *lg)], kind, crashed) {
                         let call = refseq.get(plan.rsplit(',').next().unwrap().split(':').next().unwrap().parse::<usize>().unwrap_or(0)).map(|c| format!("{} {}", c.op, c.path)).unwrap_or_default();
                         let rc = if *lg { json!({"kind": "e1-described", "world": "large", "callback": cb, "plan": plan}) } else { replay_case(world, &spec, json!({"plan": plan, "kind": kind}), &r, &wk.dir) };
@@ -358,6 +411,11 @@ pub fn run() -> Report {
                     let refseq = &calls[&(*cb, *lg)];
                     if *k < refseq.len() && r.code != Some(137) {
                         return acc.machinery(format!("{} crash point {}: process exited {:?} instead of being killed", cb, k, r.code));
+                    }
+                    if !*lg && *k < refseq.len() {
+                        if let Some((sig, d)) = recovery(&wk, cb, &recovery_ref[*cb], acc) {
+                            acc.disagree(&format!("{}:after-crash", sig), format!("{} small, first run killed before call #{}, then an undisturbed `-e 2` run in the same folder: {}", cb, k, d), json!({"kind": "e1-described", "callback": cb, "first_run_crash_before_call": k, "second_run": "-e 2, no faults, same dump folder"}));
+                        }
                     }
                     if let Some((sig, d)) = judge(&r, &reference[&(*cb, *lg)], "crash", true) {
                         let call = refseq.get(*k).map(|c| format!("{} {}", c.op, c.path)).unwrap_or_else(|| "end".into());
